@@ -23,8 +23,8 @@ EXPLANATION = (
     "every lock taken is released on every path, per loop iteration as well, and heapify_after_pop keeps exactly the current parent locked "
     "across iterations and is entered with it locked (checked at the call site in pop); two node locks are taken parent first. push stores the "
     "pushed value into the slot the counter returned, pop returns the value taken from the bottom slot / top slot. FCPriorityQueue: fc_apply's "
-    "op-codes agree with push / pop, pop reads top() before pop() and only when not empty. NOT decided: linearizability, priority order under "
-    "interleavings, the tag protocol's meaning (Hunt et al.), bit_reverse_counter (C26).")
+    "op-codes agree with push / pop, pop reads top() before pop() and only when not empty. heapify_after_push changes tags only while its item carries its own id and settles / swaps only against a parent whose tag is the stable "
+    "Available value. NOT decided: linearizability, priority order under interleavings, bit_reverse_counter (C26).")
 ASSUMPTIONS = ["clang CFG (-DNDEBUG)", "necessary conditions only"]
 R = "Otherwise two threads modify one heap node, an item is lost / duplicated, or a lock is leaked (C11)."
 
@@ -276,5 +276,57 @@ def r11_3(ctx):
 r11_3.rule_id = "R11.3"
 
 
-RULES = [r11_1, r11_2, r11_3]
-FLOORS = {"R11.1": 40, "R11.2": 8, "R11.3": 2}
+def r11_4(ctx):
+    """tag protocol of heapify_after_push (Hunt et al.): the pusher touches tags only while its own item still carries its id, and it settles
+    (marks the item Available) or swaps with the parent only when the parent is stable (tag == Available, a non-empty constant) - a parent that is
+    still being moved by another pusher must be waited for"""
+    n = 0
+    for F in ctx.need(MS + "heapify_after_push"):
+        cur = [("p", pr["d"], pr["n"]) for pr in F.params if pr["n"] == "curId"]
+        starts = [None] + list(cfg_of(F).loops())
+        for st in starts:
+            try:
+                ps = PathSim(F, bound=6000, start=st).run() if st is not None else PathSim(F, bound=6000).run()
+            except PathBoundExceeded:
+                ctx.broken("path bound exceeded in %s" % F.q)
+                continue
+            for p in ps:
+                ev = p.events
+                snap = simulate(F, p, ())
+                atoms = [(a, tv, ev.index(b)) for a, tv, b in cond_atoms(p)]
+                for i, e in enumerate(ev):
+                    ws = [w for w in node_writes(F, e)]
+                    istag = (e.kind == "store" and sv_field_path(e.obj)[-1:] == ["m_nTag"]) or (e.kind == "call" and e.q and e.q.endswith("std::swap") and "m_nTag" in repr(e.args))
+                    if not ws or not istag:
+                        continue
+                    held, _ = snap[i]
+                    if not held:
+                        continue
+                    item = held[-1]
+
+                    def tag_eq(node, want_cur):
+                        for a, tv, j in atoms:
+                            if j > i or not tv or not (isinstance(a, tuple) and a[:2] == ("op", "==")):
+                                continue
+                            x, y = a[2], a[3]
+                            for f, k in ((x, y), (y, x)):
+                                if isinstance(f, tuple) and f[:1] == ("fld",) and f[2] == "m_nTag" and _nid(f[1]) == node:
+                                    if want_cur and cur and k == cur[0]:
+                                        return True
+                                    if not want_cur and isinstance(k, tuple) and k[:1] == ("c",) and k[1] != 0:
+                                        return True
+                        return False
+                    n += 1
+                    ctx.check(tag_eq(item, True), "R11.4", F, "a pusher changes tags only while its item still carries its own id", e.node, detail=R, sig="own-item")
+                    if len(held) >= 2:
+                        n += 1
+                        ctx.check(tag_eq(held[0], False), "R11.4", F, "a pusher settles its item or swaps with the parent only when the parent's tag is the stable 'Available' value", e.node,
+                                  detail="a parent that carries another pusher's id is still moving up: comparing with it and stopping leaves the heap order broken once the "
+                                  "parent is swapped further up. " + R, sig="parent-stable")
+    if n < 4:
+        ctx.broken("heapify_after_push tag writes not found (%d)" % n)
+r11_4.rule_id = "R11.4"
+
+
+RULES = [r11_1, r11_2, r11_3, r11_4]
+FLOORS = {"R11.1": 40, "R11.2": 8, "R11.3": 2, "R11.4": 4}
